@@ -6,7 +6,7 @@ SPEC = {
     'theorems': [
         'C24_refines_sorted_list', 'C24_order', 'C24_fifo_ties', 'C24_capacity', 'C24_no_duplicates',
         'C24_observers_agree', 'C24_push_rule', 'C24_reject_unchanged', 'C24_remove_rule',
-        'C24_insert_position', 'C24_push_total_refuted', 'C24_push_total_partial',
+        'C24_insert_position', 'C24_push_total',
     ],
     'allowed_axioms': [],
     'shard': 25,
@@ -16,7 +16,8 @@ SPEC = {
             'Push/Remove error class). Streams: hand-written corner cases; small (capacity 1-5, 1-4 score values from -3..3, '
             'key alphabet capacity+1..4); ties (one score, ranks vary); extreme (int64 min/max scores); full-queue (88% pushes); '
             'large (capacity 12-40, scores -40..40, 120-250 ops, observers every 20 ops) for multi-level skip lists; '
-            'edge-cap-nonpositive (capacity 0/-1, known finding 1). Every history is executed three times under different '
+            'edge-cap-nonpositive (capacity 0/-1/-2/int64 min: every Push is ErrMemFull, state unchanged; former finding 1, '
+            'fixed in 5c1c856). Every history is executed three times under different '
             'math/rand seeds and must give identical observables. non-trivial = some Push was answered on a full queue '
             '(eviction or ErrMemFull); distinct = distinct Gallina case terms',
     'trusted_base': [
@@ -34,8 +35,8 @@ SPEC = {
     ],
     'manifest': {
         'level_text': 'full for the Queue logic over the level-0 view of the skip list (order, FIFO ties, capacity, eviction rule, '
-                      'observers, refinement to a sorted list, all histories); partial for totality of Push (panics for capacity <= 0, '
-                      'known finding 1); the multi-level pointer structure of SkipList is covered by correspondence only',
+                      'observers, refinement to a sorted list, totality of Push; all histories and all capacities including <= 0, '
+                      'finding 1 fixed in 5c1c856); the multi-level pointer structure of SkipList is covered by correspondence only',
         'level_note': 'Scorer.Compare modelled as rank comparison; list elements identified by hash; skip-list levels not modelled '
                       '(observables compared under three different math/rand seeds per history)',
         'technique': 'Coq proof (simulation of a flat sorted-list specification, invariant by induction over op histories) + '
